@@ -96,7 +96,8 @@ inductive IPc where
   | postLock   -- 853: lock returned, `r->server_data->mutex_locked_by_integrate = 1` pending
   | locked     -- 853-856: holds the mutex, step not yet started
   | stepping   -- 857: inside `reb_simulation_step`
-  | stepped    -- 858-861: heartbeat, sigint test, still holds the mutex
+  | stepped    -- 858-861: around the heartbeat (before / after `reb_run_heartbeat`), still holds the mutex
+  | inHb       -- 858: inside `reb_run_heartbeat`: the user callback may modify `r` (masses, add/remove, synchronize)
   | shotWait   -- output.c:281-297: inside the heartbeat, mutex released, waiting for the screenshot to arrive
   | postUnlock -- 872: `pthread_mutex_unlock` returned, `r->server_data->mutex_locked_by_integrate = 0` (874) pending
   | unlocked   -- 874-877: iteration finished
@@ -148,6 +149,8 @@ inductive Ev where
   | iSetFlag               -- `r->server_data->mutex_locked_by_integrate = 1`              (silent)
   | iStepBegin             -- `reb_simulation_step` entered
   | iStepEnd               -- `reb_simulation_step` returns
+  | iHbBegin               -- `reb_run_heartbeat` entered (the per-step one, rebound.c:888; the prologue's is part of `pro`)
+  | iHbEnd                 -- `reb_run_heartbeat` returns
   | iShotUnlock            -- output.c:287 `pthread_mutex_unlock` inside `reb_simulation_output_screenshot` (heartbeat)
   | iShotLock              -- output.c:304 `pthread_mutex_lock` again
   | iUnlock                -- 868: read `r->server_data` non-NULL, `pthread_mutex_unlock`
@@ -173,7 +176,7 @@ inductive Ev where
 
 def Ev.isI : Ev → Bool
   | .iEnter | .iChkBegin | .iChkSync | .iChkEnd _ | .iSeeSrv _ | .iSpin | .iSeeNC0 | .iLock | .iSetFlag
-  | .iStepBegin | .iStepEnd | .iShotUnlock | .iShotLock | .iUnlock | .iSkipUnlock | .iClrFlag | .iEpiSync | .iLeave => true
+  | .iStepBegin | .iStepEnd | .iHbBegin | .iHbEnd | .iShotUnlock | .iShotLock | .iUnlock | .iSkipUnlock | .iClrFlag | .iEpiSync | .iLeave => true
   | _ => false
 
 /-- events the shim cannot see (plain loads/stores of `need_copy`, socket I/O) -/
@@ -229,11 +232,19 @@ def step (s : State) : Ev → Option State
     if s.ipc = .stepping then
       some { s with ipc := .stepped, sim := { s.sim with phase := .atBoundary, steps := s.sim.steps + 1 } }
     else none
+  | .iHbBegin =>
+    -- the heartbeat belongs to the critical section of the step: the callback may leave `r` half modified at any moment
+    if s.ipc = .stepped then some { s with ipc := .inHb, sim := setPhase s.sim .inStep } else none
+  | .iHbEnd =>
+    if s.ipc = .inHb then some { s with ipc := .stepped, sim := setPhase s.sim .atBoundary } else none
   | .iShotUnlock =>
-    -- only if this iteration holds the mutex (output.c:283 tests mutex_locked_by_integrate)
-    if s.ipc = .stepped ∧ s.ilock = true ∧ s.owner = some .I then some { s with ipc := .shotWait, owner := none } else none
+    -- only if this iteration holds the mutex (output.c:283 tests mutex_locked_by_integrate); by contract the callback calls
+    -- reb_simulation_output_screenshot at a point where the simulation is consistent
+    if s.ipc = .inHb ∧ s.ilock = true ∧ s.owner = some .I then
+      some { s with ipc := .shotWait, owner := none, sim := setPhase s.sim .atBoundary }
+    else none
   | .iShotLock =>
-    if s.ipc = .shotWait ∧ s.owner = none then some { s with ipc := .stepped, owner := some .I } else none
+    if s.ipc = .shotWait ∧ s.owner = none then some { s with ipc := .inHb, owner := some .I, sim := setPhase s.sim .inStep } else none
   | .iUnlock =>
     -- rebound.c:868 `if (r->server_data)` read again: non-NULL → pthread_mutex_unlock.  If this iteration never
     -- locked, that is an unlock of a mutex the thread does not own: undefined behaviour, recorded in `ub`
@@ -258,7 +269,7 @@ def step (s : State) : Ev → Option State
   | .xStart =>
     if s.srvUp = false then
       some { s with srvUp := true,
-                    racy := s.racy || (decide (s.ipc = .locked ∨ s.ipc = .stepping ∨ s.ipc = .stepped) && !s.ilock) }
+                    racy := s.racy || (decide (s.ipc = .locked ∨ s.ipc = .stepping ∨ s.ipc = .stepped ∨ s.ipc = .inHb) && !s.ilock) }
     else none
   | .xStop =>
     -- pthread_cancel + pthread_join: the server thread only dies at a cancellation point (accept / socket I/O), never while it
@@ -267,7 +278,7 @@ def step (s : State) : Ev → Option State
     if s.srvUp = true ∧ (s.spc = .accepting ∨ s.spc = .sending ∨ s.spc = .holding) then
       some { s with srvUp := false, spc := .accepting, owner := none, needCopy := false,
                     racy := s.racy || decide (s.ipc = .waitNC ∨ s.ipc = .wantLock ∨ s.ipc = .postLock ∨ s.ipc = .postUnlock ∨ s.ipc = .shotWait) ||
-                            (decide (s.ipc = .locked ∨ s.ipc = .stepping ∨ s.ipc = .stepped) && s.ilock) }
+                            (decide (s.ipc = .locked ∨ s.ipc = .stepping ∨ s.ipc = .stepped ∨ s.ipc = .inHb) && s.ilock) }
     else none
   -- ------------------------------------------------------------------ server
   | .sReq =>
@@ -340,8 +351,10 @@ def soloStep (s : Solo) : Ev → Option Solo
   | .iStepEnd =>
     if s.ipc = .stepping then
       some ⟨.stepped, { s.sim with phase := .atBoundary, steps := s.sim.steps + 1 }⟩ else none
-  | .iShotUnlock => if s.ipc = .stepped then some ⟨.shotWait, s.sim⟩ else none
-  | .iShotLock => if s.ipc = .shotWait then some ⟨.stepped, s.sim⟩ else none
+  | .iHbBegin => if s.ipc = .stepped then some ⟨.inHb, setPhase s.sim .inStep⟩ else none
+  | .iHbEnd => if s.ipc = .inHb then some ⟨.stepped, setPhase s.sim .atBoundary⟩ else none
+  | .iShotUnlock => if s.ipc = .inHb then some ⟨.shotWait, setPhase s.sim .atBoundary⟩ else none
+  | .iShotLock => if s.ipc = .shotWait then some ⟨.inHb, setPhase s.sim .inStep⟩ else none
   | .iUnlock => if s.ipc = .stepped then some ⟨.postUnlock, s.sim⟩ else none
   | .iClrFlag => if s.ipc = .postUnlock then some ⟨.unlocked, s.sim⟩ else none
   | .iSkipUnlock => if s.ipc = .stepped then some ⟨.unlocked, s.sim⟩ else none
